@@ -207,7 +207,7 @@ theorem Tr.pow {c : Cfg} {l r : PExpr} {lv rv : CVal}
   simp only [hs, h2, h4, if_true]
 
 theorem Tr.un {c : Cfg} {op sym : String} {e : PExpr} {v : CVal}
-    (h : Tr c e v) (hs : assoc c.unOps op = some sym) : Tr c (.un op e) ⟨.un sym v.term, v.ty, v.incs⟩ := by
+    (h : Tr c e v) (hs : assoc c.unOps op = some sym) : Tr c (.un op e) ⟨.un sym v.term, unTy op v.ty, v.incs⟩ := by
   obtain ⟨e', h1, h2⟩ := h
   refine ⟨.un op e', by simp [resolve, h1], ?_⟩
   unfold emit
